@@ -1,8 +1,12 @@
 /* C14 / C07: secp256k1_ecdsa_adaptor_verify - the gate, real code, every pointer NULL or an object with arbitrary bytes.
  * Oracles with logs: ge_set_xquad (curve verdicts of R, R'), secp256k1_dleq_verify (verdict for the statement it was handed;
  * its own gate is C14.dleq_verify), scalar_inverse_var, scalar_mul, ecmult, gej_add_ge_var.
- *   accept => codec accepts the 162 bytes; DLEQ verdict 1 for (s, e, P1 = R', gen2 = Y = enckey, P2 = R);
- *             T = (s'^-1 * m)*G + (s'^-1 * r)*X with m = msg mod n, r = x(R) mod n, X = pubkey; T != infinity; R' - T == infinity */
+ * All oracle-usage clauses are over VALUES: calls are identified by their operands, commutative operands in either order,
+ * key objects decoded with the TU's own pubkey_load (audit #2, #17).  Both directions:
+ *   accept  => codec accepts the 162 bytes (canonical R, R' with positive curve verdicts for THOSE x, r != 0, 0 < s' < n, DLEQ s < n),
+ *              keys valid, DLEQ verdict 1 for (s, e mod n, P1 = R', gen2 = Y, P2 = R), T = (s'^-1 m)G + (s'^-1 r)X with m = msg mod n,
+ *              T != infinity, R' - T == infinity (verdict of the addition oracle)
+ *   all of that => accept  (completeness, audit #28) */
 #define LOG_XQUAD
 #define LOG_SCALAR_MUL
 #define LOG_SCALAR_INV
@@ -11,57 +15,75 @@
 #include "assumed_adaptor.h"
 #include "src/secp256k1.c"
 #include "post.h"
+#include "../C12/decode.h"
 #ifndef VERIF_NATIVE
-static wide le256(const unsigned char *b) { wide v = 0; int i; for (i = 31; i >= 0; i--) v = (v << 8) | W(b[i]); return v; }
-static wide modn1(wide v) { wide n = N_(); return v >= n ? v - n : v; }
 static int is_neg_mod_p(wide a, wide b) { wide p = P_(); int i, hit = 0; for (i = 0; i < 20; i++) hit |= (a + b == (wide)i * p); return hit; }
 #endif
 void h_verify(void) {
     secp256k1_context ctx;
     INPUT_ARR(unsigned char, sig, 162); INPUT_ARR(unsigned char, msg, 32); INPUT(secp256k1_pubkey, pubkey); INPUT(secp256k1_pubkey, enckey);
     INPUT(_Bool, use_sig); INPUT(_Bool, use_pk); INPUT(_Bool, use_msg); INPUT(_Bool, use_enc);
-    int ret;
+    secp256k1_ge X, Y; int ret, pk_valid, enc_valid;
+    dec_init(); pk_valid = dec_pubkey(&X, &pubkey); enc_valid = dec_pubkey(&Y, &enckey);
     verif_ctx_init(&ctx); ctx.hash_ctx.fn_sha256_compression = secp256k1_sha256_transform;
-    g_xq_n = 0; g_mul_n = 0; g_inv_n = 0; g_age_n = 0; g_dv_n = 0; g_em_n = 0;
+    g_xq_n = 0; g_mul_n = 0; g_inv_n = 0; g_age_n = 0; g_dv_n = 0; g_dv_ret = 0; g_em_n = 0;
     ret = secp256k1_ecdsa_adaptor_verify(&ctx, use_sig ? sig : NULL, use_pk ? &pubkey : NULL, use_msg ? msg : NULL, use_enc ? &enckey : NULL);
     __CPROVER_assert(ret == 0 || ret == 1, "C07 adaptor_verify: returns 0 or 1");
     __CPROVER_assert(g_error == 0, "C07 adaptor_verify: error callback never invoked");
-    if (!use_sig || !use_pk || !use_msg || !use_enc) { __CPROVER_assert(ret == 0 && g_illegal == 1 && g_dv_n == 0 && g_em_n == 0, "C14 adaptor_verify: NULL argument is illegal"); return; }
+    if (!use_sig || !use_pk || !use_msg || !use_enc) { __CPROVER_assert(ret == 0 && g_illegal == 1, "C14 adaptor_verify: NULL argument is illegal"); return; }
 #ifndef VERIF_NATIVE
     {
-        wide p = P_(), n = N_(), Rx = be256(&sig[1]), Rpx = be256(&sig[34]), SP = be256(&sig[66]), E = modn1(be256(&sig[98])), S = be256(&sig[130]), M = modn1(be256(msg));
-        int codec_static = (sig[0] == 2 || sig[0] == 3) && Rx < p && modn1(Rx) != 0 && (sig[33] == 2 || sig[33] == 3) && Rpx < p && SP != 0 && SP < n && S < n;
-        /* the only callbacks possible are for invalid (zero-x) public key objects, after the signature bytes were accepted */
-        __CPROVER_assert(g_illegal == 0 || (ret == 0 && g_illegal == 1 && (le256(&enckey.data[0]) == 0 || le256(&pubkey.data[0]) == 0)), "C07 adaptor_verify: no callback for any signature/message bytes; only an invalid key object is reported");
-        if (ret == 1) {
-            __CPROVER_assert(codec_static && g_xq_n == 2 && g_xq_v0 == 1 && g_xq_v1 == 1 && fval(&g_xq_x0) == Rx && fval(&g_xq_x1) == Rpx, "C14 adaptor_verify: accepts only strings the codec accepts (canonical R, R' on the curve by verdict, r != 0, 0 < s' < n, DLEQ s < n)");
-            __CPROVER_assert(le256(&enckey.data[0]) != 0 && le256(&pubkey.data[0]) != 0, "C14 adaptor_verify: accepts only valid key objects");
-        }
-        if (g_dv_n >= 1) {
-            __CPROVER_assert(codec_static && g_dv_n == 1, "C14 adaptor_verify: DLEQ verification runs once, only on decoded signatures");
-            __CPROVER_assert(sval(&g_dv_s) == S && sval(&g_dv_e) == E, "C14 adaptor_verify: DLEQ proof checked is the (e mod n, s) of the signature");
-            __CPROVER_assert(!g_dv_p1.infinity && fval(&g_dv_p1.x) == Rpx && !g_dv_p2.infinity && fval(&g_dv_p2.x) == Rx, "C14 adaptor_verify: DLEQ statement is (P1 = R', P2 = R)");
-            __CPROVER_assert(!g_dv_gen2.infinity && fval(&g_dv_gen2.x) == le256(&enckey.data[0]) && fval(&g_dv_gen2.y) == le256(&enckey.data[32]), "C14 adaptor_verify: DLEQ second base is the encryption key");
-            if (g_dv_ret == 0) __CPROVER_assert(ret == 0 && g_em_n == 0, "C14 adaptor_verify: negative DLEQ verdict rejects before the adaptor equation");
-        }
-        if (g_em_n >= 1) {
-            __CPROVER_assert(g_dv_n == 1 && g_dv_ret == 1 && g_em_n == 1, "C14 adaptor_verify: the adaptor equation is evaluated once, only after a positive DLEQ verdict");
-            __CPROVER_assert(g_inv_n == 1 && sval(&g_inv_x0) == SP, "C14 adaptor_verify: the inverted scalar is s'");
-            __CPROVER_assert(g_mul_n == 2 && SC_EQ(g_mul_a0, g_inv_r0) && sval(&g_mul_b0) == M && SC_EQ(g_mul_a1, g_inv_r0) && sval(&g_mul_b1) == modn1(Rx), "C14 adaptor_verify: u1 = s'^-1 * (msg mod n), u2 = s'^-1 * (x(R) mod n)");
-            __CPROVER_assert(g_em_hna0 && g_em_hng0 && SC_EQ(g_em_na0, g_mul_r1) && SC_EQ(g_em_ng0, g_mul_r0), "C14 adaptor_verify: computes u2*X + u1*G");
-            __CPROVER_assert(!g_em_a0.infinity && fval(&g_em_a0.x) == le256(&pubkey.data[0]) && fval(&g_em_a0.y) == le256(&pubkey.data[32]) && fval(&g_em_a0.z) == 1, "C14 adaptor_verify: the point multiplied is the signer's public key");
-            if (g_em_r0.infinity) __CPROVER_assert(ret == 0 && g_age_n == 0, "C14 adaptor_verify: derived R' at infinity rejected");
-            else {
-                __CPROVER_assert(g_age_n == 1 && FE_EQ(g_age_a0.x, g_em_r0.x) && FE_EQ(g_age_a0.z, g_em_r0.z) && is_neg_mod_p(fval(&g_age_a0.y), fval(&g_em_r0.y)) && !g_age_a0.infinity, "C14 adaptor_verify: the derived point is negated ...");
-                __CPROVER_assert(!g_age_b0.infinity && fval(&g_age_b0.x) == Rpx && GE_EQ(g_age_b0, g_dv_p1), "C14 adaptor_verify: ... and R' of the signature is added");
-                __CPROVER_assert(ret == g_age_r0.infinity, "C14 adaptor_verify: verdict = R' - derived R' is the point at infinity");
+        wide p = P_(), n = N_(), Rx = be256(&sig[1]), Rpx = be256(&sig[34]), SP = be256(&sig[66]), E = modn1_(be256(&sig[98])), S = be256(&sig[130]), M = modn1_(be256(msg)), r = modn1_(Rx);
+        int codec_static = (sig[0] == 2 || sig[0] == 3) && Rx < p && r != 0 && (sig[33] == 2 || sig[33] == 3) && Rpx < p && SP != 0 && SP < n && S < n;
+        /* curve verdicts, identified by the x they were asked about (either call order) */
+        /* (the oracle is not a function: if R and R' share their x, every verdict given for that x must be positive) */
+        int m0R = g_xq_n >= 1 && fval(&g_xq_x0) == Rx, m1R = g_xq_n >= 2 && fval(&g_xq_x1) == Rx, m0Rp = g_xq_n >= 1 && fval(&g_xq_x0) == Rpx, m1Rp = g_xq_n >= 2 && fval(&g_xq_x1) == Rpx;
+        int vR = (m0R || m1R) && (!m0R || g_xq_v0) && (!m1R || g_xq_v1);
+        int vRp = (m0Rp || m1Rp) && (!m0Rp || g_xq_v0) && (!m1Rp || g_xq_v1) && (Rx != Rpx || g_xq_n >= 2);
+        int codec_ok = codec_static && vR && vRp;
+        int dleq_stmt_ok, eq_ok = 0, T_inf = 0, final_inf = 0;
+        /* the only callbacks possible are for invalid key objects */
+        __CPROVER_assert(g_illegal == 0 || (ret == 0 && g_illegal == 1 && (!enc_valid || !pk_valid)), "C07 adaptor_verify: no callback for any signature/message bytes; only an invalid key object is reported");
+        /* --- what was handed to the oracles, whenever they were used on the way to an acceptance --- */
+        dleq_stmt_ok = g_dv_n >= 1 && sval(&g_dv_s) == S && sval(&g_dv_e) == E && !g_dv_p1.infinity && cval4(&g_dv_p1.x) == Rpx && !g_dv_p2.infinity && cval4(&g_dv_p2.x) == Rx &&
+                       !g_dv_gen2.infinity && enc_valid && cval4(&g_dv_gen2.x) == cval(&Y.x) && cval4(&g_dv_gen2.y) == cval(&Y.y);
+        if (g_em_n >= 1 && g_inv_n >= 1 && g_mul_n >= 2) {
+            wide inv = sval(&g_inv_r0), u1, u2; int m0_is_u1;
+            /* the two products, in either call order and either operand order */
+            m0_is_u1 = pair_eq(sval(&g_mul_a0), sval(&g_mul_b0), inv, M) && pair_eq(sval(&g_mul_a1), sval(&g_mul_b1), inv, r);
+            if (m0_is_u1) { u1 = sval(&g_mul_r0); u2 = sval(&g_mul_r1); } else { u1 = sval(&g_mul_r1); u2 = sval(&g_mul_r0); }
+            eq_ok = sval(&g_inv_x0) == SP && (m0_is_u1 || (pair_eq(sval(&g_mul_a1), sval(&g_mul_b1), inv, M) && pair_eq(sval(&g_mul_a0), sval(&g_mul_b0), inv, r))) &&
+                    g_em_hna0 && sval(&g_em_na0) == u2 && (g_em_hng0 ? sval(&g_em_ng0) : 0) == u1 &&
+                    pk_valid && !g_em_a0.infinity && cval4(&g_em_a0.x) == cval(&X.x) && cval4(&g_em_a0.y) == cval(&X.y) && cval4(&g_em_a0.z) == 1;
+            T_inf = g_em_r0.infinity;
+            if (g_age_n >= 1) {
+                final_inf = g_age_r0.infinity;
+                eq_ok = eq_ok && !g_age_a0.infinity && cval4(&g_age_a0.x) == cval4(&g_em_r0.x) && FE_EQ(g_age_a0.z, g_em_r0.z) && is_neg_mod_p(fval(&g_age_a0.y), fval(&g_em_r0.y)) &&
+                        !g_age_b0.infinity && cval4(&g_age_b0.x) == Rpx && cval4(&g_age_b0.y) == cval4(&g_dv_p1.y);
             }
         }
-        if (ret == 1) __CPROVER_assert(g_em_n == 1 && g_age_n == 1, "C14 adaptor_verify: accepts only through the adaptor equation");
+        /* --- soundness direction --- */
+        if (ret == 1) {
+            __CPROVER_assert(codec_ok, "C14 adaptor_verify: accepts only strings the codec accepts (canonical R, R' on the curve by verdict for those x, r != 0, 0 < s' < n, DLEQ s < n)");
+            __CPROVER_assert(enc_valid && pk_valid, "C14 adaptor_verify: accepts only valid key objects");
+            __CPROVER_assert(dleq_stmt_ok && g_dv_ret == 1, "C14 adaptor_verify: accepts only after a positive DLEQ verdict for (s, e mod n; P1 = R', gen2 = encryption key, P2 = R)");
+            __CPROVER_assert(g_em_n >= 1 && g_age_n >= 1 && eq_ok, "C14 adaptor_verify: accepts only through the adaptor equation: T = (s'^-1 * msg mod n)*G + (s'^-1 * x(R) mod n)*X, then R' + (-T)");
+            __CPROVER_assert(!T_inf && final_inf, "C14 adaptor_verify: accepts only when T is finite and R' - T is the point at infinity (oracle verdict)");
+        }
+        /* --- completeness direction (audit #28) --- */
+        if (codec_ok && enc_valid && pk_valid && dleq_stmt_ok && g_dv_ret == 1 && g_em_n >= 1 && g_age_n >= 1 && eq_ok && !T_inf && final_inf)
+            __CPROVER_assert(ret == 1, "C14 adaptor_verify: a decodable signature with valid keys, positive DLEQ verdict and R' - T at infinity IS accepted");
+        if (codec_ok && enc_valid && pk_valid) {
+            __CPROVER_assert(g_dv_n >= 1 && dleq_stmt_ok, "C14 adaptor_verify: a decodable signature with valid keys always reaches the DLEQ verification of (R', Y, R)");
+            if (g_dv_ret == 1) __CPROVER_assert(g_em_n >= 1 && eq_ok && (T_inf || g_age_n >= 1), "C14 adaptor_verify: ... and after a positive DLEQ verdict always reaches the adaptor equation");
+            if (g_dv_ret == 1 && !T_inf) __CPROVER_assert(ret == final_inf, "C14 adaptor_verify: ... whose verdict is the result");
+            if (g_dv_ret == 1 && T_inf) REACH("adaptor_verify rejects derived infinity");
+        }
         if (ret == 1 && M != be256(msg)) REACH("adaptor_verify accepts with msg >= n (reduced)");
-        if (ret == 0 && g_age_n == 1) REACH("adaptor_verify rejects on the equation");
-        if (ret == 0 && g_dv_n == 1 && g_dv_ret == 0) REACH("adaptor_verify rejects on DLEQ");
-        if (ret == 0 && g_em_n == 1 && g_em_r0.infinity) REACH("adaptor_verify rejects derived infinity");
+        if (ret == 1) REACH("adaptor_verify accepts");
+        if (ret == 0 && codec_ok && enc_valid && pk_valid && g_dv_ret == 1 && !T_inf) REACH("adaptor_verify rejects on the equation");
+        if (ret == 0 && codec_ok && enc_valid && pk_valid && g_dv_ret == 0) REACH("adaptor_verify rejects on DLEQ");
+        if (ret == 0 && codec_static && !vRp) REACH("adaptor_verify rejects R' off the curve");
         if (g_illegal == 1) REACH("adaptor_verify invalid key object");
     }
 #endif
